@@ -58,6 +58,9 @@ MUTANTS += [
     dict(id="c06-no-deepcopy", props=["C14"], edits=[("codelimit/common/gsm/Pattern.py", "self.predicate_map[predicate_id] = deepcopy(transition[0])", "self.predicate_map[predicate_id] = transition[0]")]),
     dict(id="c06-sort-by-hash", props=["C06"], edits=[(SU, "    headers = language.extract_headers(code_tokens)", "    headers = language.extract_headers(code_tokens)\n    if len(headers) > 2 and hash(headers[0].name()) % 2:\n        headers = headers[:-1]")]),
     dict(id="c06-module-state-leak", props=["C06"], edits=[(SC, "def scan_file(tokens: list[Token], language: Language) -> list[Measurement]:\n    scopes = build_scopes(tokens, language)", "_SEEN: list = []\n\n\ndef scan_file(tokens: list[Token], language: Language) -> list[Measurement]:\n    _SEEN.append(len(tokens))\n    if len(_SEEN) % 50 == 0:\n        tokens = tokens[:-1]\n    scopes = build_scopes(tokens, language)")]),
+    dict(id="c06-memo-by-token-count", props=["C06"], edits=[("codelimit/languages/Python.py", "        lines = _get_token_lines(tokens)\n", "        if not hasattr(self, '_memo'):\n            self._memo = {}\n        lines = self._memo.setdefault(len(tokens), _get_token_lines(tokens))\n")]),
+    dict(id="c06-memo-headers-by-first-name", props=["C06"], edits=[(SU, "    headers = language.extract_headers(code_tokens)", "    key = (language.name, len(code_tokens), code_tokens[0].value if code_tokens else '')\n    if key not in _HEADER_MEMO:\n        _HEADER_MEMO[key] = language.extract_headers(code_tokens)\n    headers = _HEADER_MEMO[key]"),
+                                                             (SU, "def build_scopes(tokens: list[Token], language: Language) -> list[Scope]:", "_HEADER_MEMO: dict = {}\n\n\ndef build_scopes(tokens: list[Token], language: Language) -> list[Scope]:")]),
     dict(id="c06-walk-order-dependent", props=["C07"], edits=[("codelimit/common/Codebase.py", "        self.totals[entry.language].add(entry)", "        if len(self.files) != 3 or entry.path < 'm':\n            self.totals[entry.language].add(entry)")]),
     # ---- C07
     dict(id="c07-skip-hard-count", props=["C07", "C02"], edits=[("codelimit/common/LanguageTotals.py", "        self.hard_to_maintain += profile[2]", "        self.hard_to_maintain += profile[2] if self.files % 5 else 0")]),
